@@ -231,6 +231,34 @@ def wlsq_error(prog, rep):
 KINDS = ("none", "linear", "quadratic", "cubic", "otherstr", "array", "noniterable")
 
 
+_TABLES = {}     # ("global", dotted name) -> value of a module-level literal table (filled per run by fit_lsq)
+
+
+def _load_tables(prog):
+    _TABLES.clear()
+    mod = prog.modules.get("virocon.distributions")
+    for name, expr in (getattr(mod, "constants", None) or {}).items():
+        try:
+            val = ast.literal_eval(expr)
+        except Exception:
+            continue
+        if isinstance(val, (dict, tuple, list, set, frozenset)):
+            _TABLES[G(f"virocon.distributions.{name}")] = val
+
+
+def _table_values(t, kind):
+    """TABLE[weights.lower()] read for the keyword at hand"""
+    w = P("weights")
+    low = ("call", ("attr", w, "lower"), (), ())
+    m = {}
+    for tb, val in _TABLES.items():
+        if isinstance(val, dict) and kind in val and isinstance(val[kind], (int, float)):
+            for key in (low, w):
+                m[("sub", tb, key)] = ("const", val[kind])
+    from vstat.terms import subst
+    return subst(t, m) if m else t
+
+
 def _eval_w(lit, kind):
     w = P("weights")
     low = ("call", ("attr", w, "lower"), (), ())
@@ -243,6 +271,11 @@ def _eval_w(lit, kind):
         return kind in ("linear", "quadratic", "cubic", "otherstr")
     if lit[0] == "cmp" and lit[1] == "==" and lit[2] in (low, w) and lit[3][0] == "const":
         return kind == lit[3][1]
+    if lit[0] == "cmp" and lit[1] == "in" and lit[2] in (low, w) and lit[3] in _TABLES:
+        # membership in a module-level table of keywords
+        return kind in _TABLES[lit[3]]
+    if lit[0] == "cmp" and lit[1] == "in" and lit[2] in (low, w) and lit[3][0] in ("tuple", "list", "set") and all(e[0] == "const" for e in lit[3][1]):
+        return kind in [e[1] for e in lit[3][1]]
     if lit[0] == "handler":
         return kind == "noniterable"
     if lit[0] in ("and", "or"):
@@ -338,6 +371,7 @@ def fit_lsq(prog, rep):
                 defs = rd.reaching(wname, defs[0].stmt)
                 continue
         break
+    _load_tables(prog)
     raises = [st for st in cfg.all_stmts() if isinstance(st, ast.Raise)]
     xk = lambda k: ("bin", "**", x_t, ("const", k)) if k > 1 else x_t
     expected = {"none": "const", "linear": 1, "quadratic": 2, "cubic": 3}
@@ -365,7 +399,7 @@ def fit_lsq(prog, rep):
             rep.fail("C13.weights", inst, fn.where(), f"valid weights of kind '{kind}' raise {rs}")
             continue
         # keep the last def in program order among those reached (later assignment overrides)
-        terms = [b.def_term(d) for d in reach]
+        terms = [_table_values(b.def_term(d), kind) for d in reach]
         if kind == "array":
             raw = ("call", G("numpy.asarray_chkfinite"), (P("weights"),), ())
             raws = [raw] + [("call", G("numpy.asarray_chkfinite"), (P("weights"),), (("dtype", f_),)) for f_ in fl] + [("call", G("numpy.asarray_chkfinite"), (P("weights"), f_), ()) for f_ in fl]
@@ -393,7 +427,7 @@ def fit_lsq(prog, rep):
             for lits, t_ in guarded_alts(gb.name(wname, at, {})):
                 if any(_eval_w(l, kind) is False for l in lits):
                     continue
-                cands.add(degrade(t_))
+                cands.add(_table_values(degrade(t_), kind))
             if len(cands) == 1:
                 t1 = next(iter(cands))
                 ok = algebra.same(t1, xk(k)) or algebra.same(t1, ("bin", "/", xk(k), S(xk(k))))
